@@ -492,20 +492,28 @@ def _m3_labels(vc):
     return ('labels', n, len(got['matchExpressions']))
 
 
-M3_OPERATIONS = [None, [], ['UPDATE', 'DELETE'], frozenset({'CONNECT'}), ('CREATE',), list(OPS)]
+M3_OPERATIONS = [None, [], ['UPDATE', 'DELETE'], frozenset({'CONNECT'})]
+TRI = [None, False, True]
 
 
-def _m3_handler(vc, tag, selector, *, simple=False):
-    tri = [None, False, True]
+def fin_truthy(x):
+    """truthiness of a value drawn with vc.fin, as a formula over its alternatives (no case split)"""
+    if isinstance(x, SFin):
+        from pyvc.values import _UNRESOLVED
+        return bool(x._chosen) if x._chosen is not _UNRESOLVED else x._where(bool)
+    return bool(x)
+
+
+def _m3_handler(vc, tag, selector, *, full):
     return handlers.WebhookHandler(
         id=f'{tag}/fn_x', fn=Opaque('fn'), param=None, errors=None, timeout=None, retries=None, backoff=None,
         selector=selector, labels=Opaque(f'{tag}.labels'), annotations=None, when=None, field=None, value=None,
         reason=WT.VALIDATING,
-        operations=None if simple else vc.fin(f'{tag}.operations', M3_OPERATIONS),
-        subresource=None if simple else vc.opt(f'{tag}.subresource', vc.str),
-        persistent=vc.fin(f'{tag}.persistent', tri),
-        side_effects=True if simple else vc.fin(f'{tag}.side_effects', tri),
-        ignore_failures=None if simple else vc.fin(f'{tag}.ignore_failures', tri))
+        operations=vc.fin(f'{tag}.operations', M3_OPERATIONS) if full else ['UPDATE', 'DELETE'],
+        subresource=vc.opt(f'{tag}.subresource', vc.str) if full else 'status',
+        persistent=vc.fin(f'{tag}.persistent', TRI),
+        side_effects=vc.fin(f'{tag}.side_effects', TRI) if full or tag == 'A' else True,
+        ignore_failures=vc.fin(f'{tag}.ignore_failures', TRI) if full else None)
 
 
 def _m3_webhooks(vc):
@@ -520,10 +528,9 @@ def _m3_webhooks(vc):
         m = matches[tag] = [vc.bool(f'{tag}.selector.check(res{j})') for j in range(n_res)]
         return Opaque(f'{tag}.selector', check=lambda r: m[[k for k, x in enumerate(resources) if x is r][0]])
     if n_handlers >= 1:
-        hs.append(_m3_handler(vc, 'A', mk_selector('A')))
-    if n_handlers == 2:        # the second one varies only in what decides its presence; before or after A
-        b = _m3_handler(vc, 'B', mk_selector('B'), simple=True)
-        hs.insert(vc.nondet(2, 'B after / before A'), b)
+        hs.append(_m3_handler(vc, 'A', mk_selector('A'), full=n_handlers == 1))
+    if n_handlers == 2:        # two handlers: what decides presence, order and independence varies; the rest is fixed
+        hs.insert(vc.nondet(2, 'B after / before A'), _m3_handler(vc, 'B', mk_selector('B'), full=False))
     persistent_only = [None, False, True][vc.nondet(3, 'persistent_only: default / False / True')]
     suffix = vc.str('name_suffix')
     client_config = Opaque('client_config')
@@ -541,10 +548,10 @@ def _m3_webhooks(vc):
     ld = vc.load('kopf._core.engines.admission', 'build_webhooks', stubs={
         '_normalize_name': _normalize_name, '_inject_handler_id': _inject_handler_id, '_build_labels_selector': _build_labels_selector})
     kw = {} if persistent_only is None else {'persistent_only': persistent_only}
-    got = ld.fn(iter(hs) if vc.nondet(2, 'handlers: list / one-shot iterable') else hs,
+    got = ld.fn(iter(hs) if persistent_only is None else hs,        # any iterable: a one-shot one as well
                 resources=resources, name_suffix=suffix, client_config=client_config, **kw)
     # ---- one entry per registered handler, in order; on cleanup (persistent_only) only the persistent ones stay
-    expected = [h for h in hs if not persistent_only or tobool_fin(h.persistent)]
+    expected = [h for h in hs if not persistent_only or bool(fin_truthy(h.persistent))]
     vc.ensure('webhooks.one_entry_per_handler', isinstance(got, list) and len(got) == len(expected))
     vc.canary('canary.no_webhooks', len(got) == 0)
     for e, h in zip(got, expected):
@@ -555,8 +562,10 @@ def _m3_webhooks(vc):
                   and configs[h.id].args[0] is client_config and configs[h.id].args[1] == h.id)
         vc.ensure('webhooks.object_selector_from_labels', e.get('objectSelector') is selectors.get(id(h.labels))
                   and selectors[id(h.labels)].args is h.labels)
-        vc.ensure('webhooks.policies_as_documented', e.get('sideEffects') == ('NoneOnDryRun' if tobool_fin(h.side_effects) else 'None'))
-        vc.ensure('webhooks.policies_as_documented', e.get('failurePolicy') == ('Ignore' if tobool_fin(h.ignore_failures) else 'Fail'))
+        vc.ensure('webhooks.policies_as_documented', e.get('sideEffects') in ('NoneOnDryRun', 'None')
+                  and Iff(e.get('sideEffects') == 'NoneOnDryRun', fin_truthy(h.side_effects)))
+        vc.ensure('webhooks.policies_as_documented', e.get('failurePolicy') in ('Ignore', 'Fail')
+                  and Iff(e.get('failurePolicy') == 'Ignore', fin_truthy(h.ignore_failures)))
         vc.ensure('webhooks.policies_as_documented', e.get('matchPolicy') == 'Equivalent')
         t = e.get('timeoutSeconds')
         vc.ensure('webhooks.accepted_by_kubernetes', isinstance(t, int) and 1 <= t <= 30)
@@ -567,10 +576,10 @@ def _m3_webhooks(vc):
         want = [] if m is None else [(r, j) for j, r in enumerate(resources) if bool(m[j])]
         rules = e.get('rules')
         vc.ensure('webhooks.rule_per_matching_resource', isinstance(rules, list) and len(rules) == len(want))
-        ops = resolve(h.operations)
         for rule, (r, j) in zip(rules, want):
             vc.ensure('webhooks.rule_per_matching_resource', len(rule['apiGroups']) == 1 and len(rule['apiVersions']) == 1
                       and And(Eq(rule['apiGroups'][0], r.group), Eq(rule['apiVersions'][0], r.version)))
+            ops = resolve(h.operations)         # decided by now if the code looked at them at all
             vc.ensure('webhooks.rule_operations', sorted(rule['operations']) == (sorted(ops) if ops else ['*']))
             vc.ensure('webhooks.accepted_by_kubernetes', rule.get('scope') in ('*', 'Cluster', 'Namespaced'))
             got_res = rule['resources']
@@ -588,11 +597,6 @@ def _m3_webhooks(vc):
                 vc.ensure('webhooks.rule_subresource_star_covers_main', Implies(star, has_main),
                           excuse={F_SUBRESOURCE_STAR: star})
     return ('webhooks', n_handlers, n_res, len(got))
-
-
-def tobool_fin(x):
-    """truthiness of an (already decided) tri-state field"""
-    return bool(resolve(x))
 
 
 @harness('M3', targets=['kopf._core.engines.admission.find_resource', 'kopf._core.engines.admission.build_webhooks',
